@@ -16,7 +16,9 @@ EXTENDS Naturals, Integers, Sequences, FiniteSets, TLC
 \* invoices: payment hash h in {"h1","h2"}, variant v in {"v1","v2"} (two different valid
 \* invoices for one hash), "old" (expired); channels: node-assigned ids (dbid) 1..3
 InitNode == [ allow |-> {}, inv |-> {}, mark |-> 0,
-              chans |-> {} ]     \* set of [d, phase, forget]
+              chans |-> {},      \* set of [d, phase, forget]
+              fee |-> 0 ]        \* fees counted by the fee velocity control, in units of one Withdraw fee
+                                 \* (tracked only when k.feeLimit > 0: runs with a small fee velocity limit)
 
 Err(s)      == [resp |-> [ok |-> FALSE, flag |-> -1], s |-> s]
 Ok(s)       == [resp |-> [ok |-> TRUE, flag |-> -1], s |-> s]
@@ -87,11 +89,21 @@ Forget(s, d) ==
 \* both pass the check (which does not see the input paths) and are refused by the signing step.
 \* Nothing of the abstract node state changes (the fee velocity is C12's subject; the frame and restart
 \* observations of ImplNode see the concrete state).
-Withdraw(s, inp, fund) ==
+\* k.feeLimit > 0: the node's policy allows that many Withdraw fees per interval (a run with a tiny fee
+\* velocity limit; 0 = default policy, practically unlimited and not tracked).  Order in the code:
+\* check_onchain_tx validates the outputs, then counts the fee against the velocity limit (refusing when it
+\* would be exceeded, nothing counted), then unchecked_sign_onchain_tx refuses inputs it cannot sign -
+\* k.withdrawCountsBeforeSign = TRUE: as the code at HEAD does, the fee is already counted then
+\* (C10 known finding); FALSE: what C10 asks for.
+Withdraw(s, inp, fund, k) ==
+  LET tracked == "feeLimit" \in DOMAIN k /\ k.feeLimit > 0
+      counted == IF tracked THEN [s EXCEPT !.fee = @ + 1] ELSE s IN
   IF fund > 0 /\ (ChanOf(s, fund) = {} \/ \E c \in ChanOf(s, fund) : c.phase = "stub")
   THEN Err(s)                             \* no keys for the output / an unknown p2wsh output
-  ELSE IF inp \in {"badtr", "badpath"} THEN Err(s)
-  ELSE Ok(s)
+  ELSE IF tracked /\ s.fee + 1 > k.feeLimit THEN Err(s)       \* policy-onchain-fee-range: velocity
+  ELSE IF inp \in {"badtr", "badpath"}
+       THEN (IF "withdrawCountsBeforeSign" \in DOMAIN k /\ k.withdrawCountsBeforeSign THEN Err(counted) ELSE Err(s))
+  ELSE Ok(counted)
 
 Step(s, r, k) ==
   CASE r.op = "AddAllow"    -> AddAllow(s, r.l, k)
@@ -102,7 +114,7 @@ Step(s, r, k) ==
     [] r.op = "NewChannel"  -> NewChannel(s, r.d)
     [] r.op = "Setup"       -> Setup(s, r.d)
     [] r.op = "Forget"      -> Forget(s, r.d)
-    [] r.op = "Withdraw"    -> Withdraw(s, r.inp, r.fund)
+    [] r.op = "Withdraw"    -> Withdraw(s, r.inp, r.fund, k)
     [] r.op = "Heartbeat"   -> Ok(s)          \* nothing expires / is buried with a fixed clock and chain
     [] r.op = "Restart"     -> Ok(s)
     [] OTHER                -> Err(s)
